@@ -144,6 +144,28 @@ P["C17"] = dict(
 NA_PENDING = "check not built yet (build in progress, see DESIGN.md section 9)"
 
 
+# third-round additions (DESIGN.md section 10, end)
+R3 = {
+ "C01": " Also: the overlap checker's guarded insertion and neighbour comparisons (OVL) and the lookup-scope rule of the symbol table (too many dots find nothing).",
+ "C02": " Also: ResolverContext::can_guess is exactly the negated strict flag; the stability comparison is over the whole kept value (declared field type), stores through mem::replace recognised; a rule parameter is marked `value known` only behind the static analysis of its argument (expression or nested match).",
+ "C03": " Also: in assemble_with_command every Err reachable after a successful write_bytes is the `?` of another write_bytes (no failure after output was written).",
+ "C04": " Also: who may declare a BigInt width (field stores, literals, BigInt::new with a width) against an audited table of 13 writers.",
+ "C05": " Also: the literal parser's accumulator is updated exactly as value*radix + digit once per accepted digit with the radix that validated the digit; the only Ok of `@` is BigInt::concat over both operands' own declared widths.",
+ "C06": " Also: every mutation of the overlap checker's entry list is the one guarded insertion; every Ok of check_bank_output is behind the range test or the `no size` edge.",
+ "C08": " Also: the prefix query's result array is only initialised before the probing loop; SK match-locals as in C02.",
+ "C09": " Also: can_guess definition and FIX2 whole-value stability comparisons (a change the comparison cannot see would make the result depend on the budget).",
+ "C11": " Also: sibling agreement of the 15 formatters on how the bits are obtained (read_bit/len/get_blocks or the audited wrapper), and no partial digit-to-character conversion in the formatter module.",
+ "C12": " Also: format_addrspan's line/column are a function of the row's own span over its own file's text; no partial digit-to-character conversion in the listings.",
+ "C13": " Also: get_line_column_at_index counts one per character / line over char_indices; the source walker reads the stored text of its own handle unchanged.",
+ "C14": " Also: separator-sensitive string operations of filename_navigate read the normalised spelling; every Ok of incbin/incstr is behind both range tests or is the empty-file answer; the #once test reads the node list before anything is spliced in.",
+ "C17": " Also: a sub-rule argument is recorded with the span and text its own candidate consumed; can_guess definition.",
+ "C18": " Also: the derived output name is the input path after the path library replaced its extension with the one chosen by the format match.",
+}
+for _k, _v in R3.items():
+    if _k in P and "text" in P[_k] and _v not in P[_k]["text"]:
+        P[_k]["text"] += _v
+
+
 def main():
     props = [json.loads(l) for l in open(os.path.join(VERIF, "properties.jsonl"))]
     checks = []
